@@ -31,6 +31,10 @@ def norm(ev):
 
 
 def main():
+    if getattr(layout, '_verif_events', None) is None:
+        # this copy of penman has no hook (e.g. an older scratch copy): nothing to record
+        sys.stdout.write(json.dumps({'nohook': True}) + '\n')
+        return
     for line in sys.stdin:
         if not line.strip():
             continue
